@@ -105,6 +105,16 @@ class Tr:
             return self.ifexpr(e, env, want)
         if tag == "block":
             return self.block(e, env, want)
+        if tag == "field":
+            x, t = self.ev(e[1], env)
+            if t == "V" and e[2] in ("re", "im"):
+                return f"(v{e[2]} O {x})", "S"
+            if isinstance(t, tuple) and t[0] == "ccout" and e[2] == "integral":
+                return x, "S"
+            # quad-rs: Result<Output{result: IntegrationResult{result: Option<Complex>}}>: .unwrap().result.result.unwrap()
+            if isinstance(t, tuple) and t[0] == "gk" and t[1] in (1, 2) and e[2] == "result":
+                return x, ("gk", t[1] + 1)
+            self.fail("field ." + e[2] + " of " + str(t), e)
         if tag == "closure":
             self.fail("closure outside a call/map position", e)
         self.fail("expression form " + tag, e)
@@ -270,6 +280,61 @@ class Tr:
             if t != "S":
                 self.fail(".abs() on " + str(t), e)
             return f"(sabs O {x})", "S"
+        if name == "max" and len(args) == 1:
+            x, t = self.ev(recv, env, "Z")
+            y, ty = self.ev(args[0], env, "Z")
+            if t != "Z" or ty != "Z":
+                self.fail(".max on " + str(t), e)
+            return f"(Z.max {x} {y})", "Z"
+        if name == "unwrap" and not args:
+            x, t = self.ev(recv, env)
+            if isinstance(t, tuple) and t[0] == "glnew":
+                return x, ("glquad",)
+            if isinstance(t, tuple) and t[0] == "gk" and t[1] == 0:
+                return x, ("gk", 1)
+            if isinstance(t, tuple) and t[0] == "gk" and t[1] == 3:
+                return x, "V"
+            self.fail(".unwrap() on " + str(t), e)
+        if name in ("relative_tolerance", "with_maximum_iter") and len(args) == 1:
+            x, t = self.ev(recv, env)
+            if not (isinstance(t, tuple) and t[0] == "gkb"):
+                self.fail("builder method on " + str(t), e)
+            v, tv = self.ev(args[0], env, "S" if name == "relative_tolerance" else None)
+            if name == "relative_tolerance":
+                if tv != "S" or t[1] is not None:
+                    self.fail("relative_tolerance argument", e)
+                return "", ("gkb", v, t[2])
+            if tv != "N" or t[2] is not None:
+                self.fail("with_maximum_iter argument", e)
+            return "", ("gkb", t[1], v)
+        if name == "integrate":
+            x, t = self.ev(recv, env)
+            if t == ("glquad",) and len(args) == 3:
+                a, ta = self.ev(args[0], env, "S")
+                b, tb = self.ev(args[1], env, "S")
+                clo, cenv = self.closure_of(args[2], env)
+                if ta != "S" or tb != "S" or clo is None:
+                    self.fail("GaussLegendre::integrate arguments", e)
+                f, tf = self.lam(clo, cenv, ["S"])
+                if tf != "S":
+                    self.fail("GaussLegendre::integrate integrand must be real valued", e)
+                return f"(gl_integrate {x} {a} {b} {f})", "S"
+            if isinstance(t, tuple) and t[0] == "gkb" and len(args) == 2:
+                if t[1] is None or t[2] is None:
+                    self.fail("quad_rs integrator without tolerance / iteration limit", e)
+                pr, rg = args
+                if not (pr[0] == "call" and pr[1] == ("path", ["Problem"]) and len(pr[2]) == 1 and rg[0] == "range" and not rg[3]):
+                    self.fail("quad_rs integrate arguments", e)
+                clo, cenv = self.closure_of(pr[2][0], env)
+                a, ta = self.ev(rg[1], env)
+                b, tb = self.ev(rg[2], env)
+                if clo is None or ta != "V" or tb != "V":
+                    self.fail("quad_rs integrate: closure over a complex range expected", e)
+                f, tf = self.lam(clo, cenv, ["V"])
+                if tf != "V":
+                    self.fail("quad_rs integrand must be complex valued", e)
+                return f"(gk_integrate {t[1]} {t[2]} {f} {a} {b})", ("gk", 0)
+            self.fail(".integrate on " + str(t), e)
         if name in ("is_odd", "is_even") and not args:
             x, t = self.ev(recv, env, "Z")
             if t != "Z":
@@ -290,6 +355,30 @@ class Tr:
             if any(t != "S" for _, t in xs):
                 self.fail("integrand argument type", e)
             return "(" + env[name][0] + " " + " ".join(x for x, _ in xs) + ")", "V"
+        if f[1] == ["Complex", "new"] and len(args) == 2:
+            x, tx = self.ev(args[0], env, "S")
+            y, ty = self.ev(args[1], env, "S")
+            if tx != "S" or ty != "S":
+                self.fail("Complex::new arguments", e)
+            return f"(vmk O {x} {y})", "V"
+        if f[1] == ["gauss_quad", "GaussLegendre", "new"] and len(args) == 1:
+            n, tn = self.ev(args[0], env, "Z")
+            if tn != "Z":
+                self.fail("GaussLegendre::new argument", e)
+            return n, ("glnew",)
+        if f[1] == ["quad_rs", "Integrator", "default"] and not args:
+            return "", ("gkb", None, None)
+        if f[1] == ["quadrature", "clenshaw_curtis", "integrate"] and len(args) == 4:
+            clo, cenv = self.closure_of(args[0], env)
+            a, ta = self.ev(args[1], env, "S")
+            b, tb = self.ev(args[2], env, "S")
+            t_, tt = self.ev(args[3], env, "S")
+            if clo is None or (ta, tb, tt) != ("S", "S", "S"):
+                self.fail("clenshaw_curtis::integrate arguments", e)
+            g, tg = self.lam(clo, cenv, ["S"])
+            if tg != "S":
+                self.fail("clenshaw_curtis integrand must be real valued", e)
+            return f"(cc_integrate {g} {a} {b} {t_})", ("ccout",)
         if f[1] == ["Steps"] and len(args) == 3:
             a, ta = self.ev(args[0], env, "S")
             b, tb = self.ev(args[1], env, "S")
@@ -535,6 +624,13 @@ class Tr:
                 env2[pat[1]] = ("__closure__", val, dict(env))
                 return self.stmts(rest, tail, env2, want)
             x, t = self.ev(val, env)
+            if isinstance(t, tuple) and t[0] == "gkb":
+                # a configured quad_rs::Integrator is not a value of the model: remember its settings under the name
+                if pat[0] != "pbind":
+                    self.fail("integrator bound to a pattern", st)
+                env2 = dict(env)
+                env2[pat[1]] = ("", t)
+                return self.stmts(rest, tail, env2, want)
             if self.guards is not None:
                 self.guards.append(("let", pat, x, t))
             b, env2 = self.bind_pattern(pat, t, env)
@@ -768,6 +864,7 @@ def gen_integration(repo, out):
     uitems = parse_file(os.path.join(repo, UTILS))
     tr = Tr(path, items, {})
     lines = []
+    adapter_lines = []
     lines.append(f"(* GENERATED by tools/gen/integration.py from {SRC} and {UTILS} (Steps::value) — do not edit;\n"
                  "   regenerated on every check run. *)\n"
                  "From Coq Require Import ZArith QArith List Bool.\n"
@@ -826,6 +923,7 @@ def gen_integration(repo, out):
         variants = dispatch_arms(tr, it, ["Simpson", "AdaptiveSimpson"], lines, out, dim)
         if variants != sorted(["Simpson", "AdaptiveSimpson", "GaussKonrod", "GaussLegendre", "ClenshawCurtis"]):
             raise Untranslatable(it.file, it.span[0], f"Integrator::{nm}: variants {variants}")
+        dispatch_arms(tr, it, ["GaussLegendre", "ClenshawCurtis", "GaussKonrod"], adapter_lines, out, dim)
     # Default
     d = find1(items, "default", "Integrator")
     out.span("integration:Integrator::default", d)
@@ -834,6 +932,18 @@ def gen_integration(repo, out):
         raise Untranslatable(d.file, d.span[0], "Integrator::default: expected Integrator::Simpson { divs: <literal> }")
     lines.append(f"Definition default_simpson_divs : Z := {int(d.body[2][2][0][1][1])}.\n")
     lines.append("End Integration.\n")
+    lines.append("(* The arms of Integrator::integrate / integrate2d that hand the integrand to an external crate, with the external\n"
+                 "   integrators as oracles: gl_integrate n a b g = gauss_quad::GaussLegendre::new(n).unwrap().integrate(a, b, g);\n"
+                 "   cc_integrate g a b tol = quadrature::clenshaw_curtis::integrate(g, a, b, tol).integral;\n"
+                 "   gk_integrate tol iters g a b = quad_rs::Integrator::default().relative_tolerance(tol).with_maximum_iter(iters)\n"
+                 "     .integrate(Problem(g), a..b).unwrap().result.result.unwrap()  (a total function here: the panic of finding F5d is\n"
+                 "   outside the model).  What is generated is the adapter: which closure is passed, argument order, re/im recombination. *)\n"
+                 "Section Adapters.\nVariable O : num_ops.\n"
+                 "Variable gl_integrate : Z -> Sc O -> Sc O -> (Sc O -> Sc O) -> Sc O.\n"
+                 "Variable cc_integrate : (Sc O -> Sc O) -> Sc O -> Sc O -> Sc O -> Sc O.\n"
+                 "Variable gk_integrate : Sc O -> nat -> (Vc O -> Vc O) -> Vc O -> Vc O -> Vc O.\n")
+    lines.extend(adapter_lines)
+    lines.append("End Adapters.\n")
     out.write("Integration.v", "\n".join(lines))
 
 
